@@ -44,4 +44,4 @@ def add_to(run):
     for _f, _st in run.extra["lean_lemmas"]["files"].items():
         if _st != "accepted":
             run.assumptions.append(f"Lean lemma file {_f} is '{_st}': what it backs is TRUSTED in this run")
-    discharge_all(run, obs, timeout_ms=20000)
+    discharge_all(run, obs, timeout_ms=30000)
